@@ -157,13 +157,108 @@ def add_kmac(reg):
     # bytes; SHA3-256 injective = the one assumed cryptographic fact (spec/hashprim.py)
     forb, post = mac_fsm('verify', done)
     assert forb == 'False'
-    reg.add(Contract(KMAC + '.verify', params={'mac_tag': 'buffer'}, requires=['valid(self)'],
-                     raises={'ValueError': ('iff', 'bytes(mac_tag) != (%s if self._mac is None else self._mac)' % cs_stream(
-                         '0', 'self.digest_size', '%s.g_data + %sright_encode(8 * self.digest_size)' % (CS, S185)))},
-                     ensures=dict(post, accepted='bytes(mac_tag) == self._mac', valid='valid(self)'),
-                     on_raise={'ValueError': ['valid(self)', 'self._mac is not None']},
-                     modifies=['self._mac', CS + '.g_data', CS + '.g_out', CS + '.g_sq', CS + '.g_pad', 'self._cshake._is_squeezing'],
-                     inline=[KMAC + '.digest'], opaque=ENC_OPAQUE, options=opts()))
+    for kind in ('bytes', 'bytearray', 'memoryview'):       # one contract object per buffer type: three parallel units
+        reg.contracts[KMAC + '.verify#' + kind] = Contract(
+            KMAC + '.verify', params={'mac_tag': kind}, requires=['valid(self)'],
+            raises={'ValueError': ('iff', 'bytes(mac_tag) != (%s if self._mac is None else self._mac)' % cs_stream(
+                '0', 'self.digest_size', '%s.g_data + %sright_encode(8 * self.digest_size)' % (CS, S185)))},
+            ensures=dict(post, accepted='bytes(mac_tag) == self._mac', valid='valid(self)'),
+            on_raise={'ValueError': ['valid(self)', 'self._mac is not None']},
+            modifies=['self._mac', CS + '.g_data', CS + '.g_out', CS + '.g_sq', CS + '.g_pad', 'self._cshake._is_squeezing'],
+            inline=[KMAC + '.digest'], opaque=ENC_OPAQUE, options=opts(feas_ms=120))
+
+
+def add_tuplehash(reg):
+    """SP 800-185 section 5: TupleHash(X, L, S) = cSHAKE(encode_string(X[1]) || ... || encode_string(X[m]) || right_encode(L), L, "TupleHash", S)."""
+    TCS = 'self._cshake._state._raw_pointer'
+    reg.add(ClassContract(TUPLE, fields={'digest_size': 'int', '_digest': 'bytes|none', '_cshake': 'obj:' + XOF},
+                          valid=['8 <= self.digest_size and self.digest_size <= ' + MAXSIZE,
+                                 'self._cshake._padding == 0x04',
+                                 'self._digest is None ==> not self._cshake._is_squeezing',
+                                 'self._digest is not None ==> (len(self._digest) == self.digest_size and self._cshake._is_squeezing)']))
+    for modname, rate in VARIANTS:
+        tag = 'tuplehash%d' % (128 if rate == 168 else 256)
+        c = Contract(TUPLE + '.__init__', params={'custom': 'buffer', 'cshake': 'module:' + modname, 'digest_size': 'int'},
+                     requires=['8 <= digest_size and digest_size <= ' + MAXSIZE], raises={},
+                     ensures={'absorbed': '%s.g_data == %scshake_prefix(b"TupleHash", bytes(custom), %d)' % (TCS, S185, rate),
+                              'sponge': '%s.g_p1 == %d and %s.g_p2 == 24 and self._cshake._padding == 0x04' % (TCS, 200 - rate, TCS),
+                              'fresh': 'self._digest is None and self.digest_size == digest_size and %s.g_out == 0' % TCS,
+                              'valid': 'valid(self)'},
+                     modifies=['self.digest_size', 'self._digest', 'self._cshake'], opaque=ENC_OPAQUE, options=opts(assume_valid=False))
+        reg.contracts[TUPLE + '.__init__#' + tag] = c
+    done = 'self._digest is not None'
+    fsm = lambda m: fsm_clauses('HASH.digest_final', {('update', 'digest'): 'not (%s)' % done, ('digest',): done}, m)
+    # update(*data): one encode_string per item, in order (this is what keeps ("ab","c") and ("a","bc") apart)
+    kinds = ('bytes', 'bytearray', 'memoryview')
+    arities = ['tuple()'] + ['tuple(%s)' % a for a in kinds] + ['tuple(%s,%s)' % (a, b) for a in kinds for b in kinds] + ['tuple(bytes,bytearray,memoryview)']
+    forb, post = fsm('update')
+    enc = lambda i: '%sencode_string(bytes(data[%d]))' % (S185, i)
+    absorbed = ' and '.join('(len(data) == %d ==> %s.g_data == old(%s.g_data)%s)' % (n, TCS, TCS, ''.join(' + ' + enc(i) for i in range(n)))
+                            for n in range(4))
+    reg.add(Contract(TUPLE + '.update', params={'data': '|'.join(arities)}, requires=['valid(self)'],
+                     raises={'TypeError': ('iff', forb)}, unchanged_on_raise=True,
+                     ensures=dict(post, absorbed=absorbed, self='result is self', valid='valid(self)'),
+                     returns='self', modifies=[TCS + '.g_data'], opaque=ENC_OPAQUE, options=opts()))
+    forb, post = fsm('digest')
+    assert forb == 'False'
+    first = 'old(self._digest) is None'
+    reg.add(Contract(TUPLE + '.digest', params={}, requires=['valid(self)'], raises={},
+                     ensures=dict(post,
+                                  value='%s ==> result == %s' % (first, cs_stream('0', 'self.digest_size', 'old(%s.g_data) + %sright_encode(8 * self.digest_size)' % (TCS, S185))),
+                                  idempotent='not %s ==> (result == old(self._digest) and %s.g_data == old(%s.g_data) and %s.g_out == old(%s.g_out))' % (first, TCS, TCS, TCS, TCS),
+                                  cached='self._digest == result and len(result) == self.digest_size', valid='valid(self)'),
+                     modifies=['self._digest', TCS + '.g_data', TCS + '.g_out', TCS + '.g_sq', TCS + '.g_pad', 'self._cshake._is_squeezing'],
+                     result='bytes', opaque=ENC_OPAQUE, options=opts()))
+
+
+def kw_has(k):
+    return '"%s" in kwargs' % k
+
+
+def kw_old(k, default):
+    return '(old(kwargs["%s"]) if "%s" in old(kwargs) else %s)' % (k, k, default)
+
+
+def add_new_functions(reg):
+    """module-level new(**kwargs) of KMAC128/256 and TupleHash128/256: parameter domains and the object handed out"""
+    RCS = 'result._cshake._state._raw_pointer'
+    for modname, rate in VARIANTS:
+        bits = 128 if rate == 168 else 256
+        # ---- KMAC: key mandatory and >= the security strength in bytes (16 / 32); mac_len >= 8 (default 64); custom default b""
+        minkey = 16 if bits == 128 else 32
+        kwt = '|'.join(['dict()', 'dict(key:none)', 'dict(key:int)', 'dict(key:bytes)', 'dict(key:bytearray,data:bytes)', 'dict(key:memoryview,mac_len:int)',
+                        'dict(key:bytes,data:memoryview,mac_len:int,custom:bytes)', 'dict(key:bytes,custom:bytearray)', 'dict(key:bytes,data:none)',
+                        'dict(key:bytes,bogus:int)', 'dict(key:bytes,mac_len:int,bogus:int)'])
+        nokey = '(not %s or not isinstance(kwargs["key"], (bytes, bytearray, memoryview)))' % kw_has('key')
+        bad = '(len(kwargs["key"]) < %d or (%s and kwargs["mac_len"] < 8))' % (minkey, kw_has('mac_len'))
+        data = kw_old('data', 'None')
+        reg.add(Contract('Crypto.Hash.KMAC%d.new' % bits, params={'kwargs': kwt},
+                         # domain: a tag longer than sys.maxsize bytes cannot be produced (see the class invariant of KMAC_Hash)
+                         requires=['%s ==> kwargs["mac_len"] <= %s' % (kw_has('mac_len'), MAXSIZE)],
+                         raises={'TypeError': ('iff', '%s or (not %s and %s)' % (nokey, bad, kw_has('bogus'))),
+                                 'ValueError': ('iff', 'not %s and %s' % (nokey, bad))},
+                         ensures={'absorbed': '%s.g_data == %scshake_prefix(b"KMAC", bytes(%s), %d) + %skmac_key_block(bytes(old(kwargs["key"])), %d) + '
+                                              '(b"" if %s is None else bytes(%s))' % (RCS, S185, kw_old('custom', 'b""'), rate, S185, rate, data, data),
+                                  'sponge': '%s.g_p1 == %d and %s.g_p2 == 24 and result._cshake._padding == 0x04' % (RCS, 200 - rate, RCS),
+                                  'fresh': 'result._mac is None and result.digest_size == %s and %s.g_out == 0' % (kw_old('mac_len', '64'), RCS),
+                                  'valid': 'valid(result)'},
+                         modifies=None, result='obj:' + KMAC, opaque=ENC_OPAQUE, options=opts()))
+        # ---- TupleHash: digest_bytes >= 8 or digest_bits >= 64 in steps of 8 (default 64 bytes), not both
+        kwt = '|'.join(['dict()', 'dict(digest_bytes:int)', 'dict(digest_bits:int)', 'dict(digest_bytes:int,digest_bits:int)', 'dict(custom:bytes)',
+                        'dict(digest_bytes:int,custom:bytearray)', 'dict(digest_bits:int,custom:memoryview)'])
+        both = '(%s and %s)' % (kw_has('digest_bytes'), kw_has('digest_bits'))
+        bad = '((%s and kwargs["digest_bytes"] < 8) or (%s and (kwargs["digest_bits"] < 64 or kwargs["digest_bits"] %% 8 != 0)))' % (
+            kw_has('digest_bytes'), kw_has('digest_bits'))
+        ds = '(old(kwargs["digest_bytes"]) if "digest_bytes" in old(kwargs) else (old(kwargs["digest_bits"]) // 8 if "digest_bits" in old(kwargs) else 64))'
+        reg.add(Contract('Crypto.Hash.TupleHash%d.new' % bits, params={'kwargs': kwt},
+                         requires=['%s ==> kwargs["digest_bytes"] <= %s' % (kw_has('digest_bytes'), MAXSIZE),
+                                   '%s ==> kwargs["digest_bits"] // 8 <= %s' % (kw_has('digest_bits'), MAXSIZE)],
+                         raises={'TypeError': ('iff', both), 'ValueError': ('iff', 'not %s and %s' % (both, bad))},
+                         ensures={'absorbed': '%s.g_data == %scshake_prefix(b"TupleHash", bytes(%s), %d)' % (RCS, S185, kw_old('custom', 'b""'), rate),
+                                  'sponge': '%s.g_p1 == %d and %s.g_p2 == 24 and result._cshake._padding == 0x04' % (RCS, 200 - rate, RCS),
+                                  'fresh': 'result._digest is None and result.digest_size == %s and %s.g_out == 0' % (ds, RCS),
+                                  'valid': 'valid(result)'},
+                         modifies=None, result='obj:' + TUPLE, opaque=ENC_OPAQUE, options=opts()))
 
 
 def registry():
@@ -173,18 +268,51 @@ def registry():
     add_cshake(reg)
     add_sha3(reg)
     add_kmac(reg)
+    add_tuplehash(reg)
+    add_new_functions(reg)
     return reg
 
 
 def units(prop, tier):
     from vf.pyunit import pyvc_unit
     us = []
+
+    def u(uid, targets, **kw):
+        us.append(pyvc_unit(prop, uid, registry, targets, **kw))
+    kinit = [KMAC + '.__init__#kmac128', KMAC + '.__init__#kmac256']
+    tinit = [TUPLE + '.__init__#tuplehash128', TUPLE + '.__init__#tuplehash256']
     if prop == 'C03':
-        us.append(pyvc_unit(prop, 'hash.cshake.encode', registry, [C + '_left_encode', C + '_right_encode', C + '_encode_str']))
-        rates = RATES_QUICK if tier == 'quick' else list(range(1, 200))
-        for w in rates:
-            us.append(pyvc_unit(prop, 'hash.cshake.bytepad.w%03d' % w, registry, [C + '_bytepad'], fix={'length': w}))
-        us.append(pyvc_unit(prop, 'hash.cshake.init', registry, [XOF + '.__init__']))
-        us.append(pyvc_unit(prop, 'hash.cshake.new', registry, [C + 'new', C + '_new', C256 + 'new', C256 + '_new']))
-        us.append(pyvc_unit(prop, 'hash.cshake.update_read', registry, [XOF + '.update', XOF + '.read']))
+        u('hash.cshake.encode', [C + '_left_encode', C + '_right_encode', C + '_encode_str'])
+        u('hash.cshake.bytepad.any', [C + '_bytepad'])          # every 1 <= w <= 255 at once (symbolic w)
+        for w in (RATES_QUICK if tier == 'quick' else list(range(1, 200))):
+            u('hash.cshake.bytepad.w%03d' % w, [C + '_bytepad'], fix={'length': w})
+        u('hash.cshake.init', [XOF + '.__init__'])
+        u('hash.cshake.new', [C + 'new', C + '_new', C256 + 'new', C256 + '_new'])
+        u('hash.cshake.update_read', [XOF + '.update', XOF + '.read'])
+        u('hash.kmac.init128', kinit[:1])
+        u('hash.kmac.init256', kinit[1:])
+        u('hash.kmac.update_digest', [KMAC + '.update', KMAC + '.digest'])
+        for kind in ('bytes', 'bytearray', 'memoryview'):
+            u('hash.kmac.verify.' + kind, [KMAC + '.verify#' + kind])
+        u('hash.kmac.new128', ['Crypto.Hash.KMAC128.new'])
+        u('hash.kmac.new256', ['Crypto.Hash.KMAC256.new'])
+        u('hash.tuplehash.init', tinit)
+        u('hash.tuplehash.update_digest', [TUPLE + '.update', TUPLE + '.digest'])
+        u('hash.tuplehash.new', ['Crypto.Hash.TupleHash128.new', 'Crypto.Hash.TupleHash256.new'])
+    if prop == 'C09':
+        # segmentation: every update() appends exactly its argument to the abstract input (g_data' == g_data ++ data), so any two
+        # segmentations of one byte string reach the same abstract state (associativity of ++); read() is a slice of ONE output
+        # stream at the ghost position g_out, so consecutive reads concatenate to the one-shot read
+        u('hash.cshake.segmentation', [XOF + '.update', XOF + '.read'])
+        u('hash.kmac.segmentation', [KMAC + '.update'])
+        u('hash.tuplehash.segmentation', [TUPLE + '.update'])
+    if prop == 'C10':
+        u('hash.cshake.fsm', [XOF + '.update', XOF + '.read'])
+        u('hash.kmac.fsm', [KMAC + '.update', KMAC + '.digest', KMAC + '.verify#bytes'])
+        u('hash.tuplehash.fsm', [TUPLE + '.update', TUPLE + '.digest'])
+    if prop == 'C19':
+        # input frames: `modifies` of every method excludes its byte-string arguments (bytearray arguments included)
+        u('hash.cshake.frames', [XOF + '.__init__', XOF + '.update'])
+        u('hash.kmac.frames', kinit[:1] + [KMAC + '.update', KMAC + '.verify#bytearray'])
+        u('hash.tuplehash.frames', [TUPLE + '.update'])
     return us
